@@ -300,7 +300,10 @@ def bound_to_own_zone(c):
     """every processor query made on behalf of this time zone found the processor bound to this zone"""
     f = tz_fields(c.old, c.this if c.fn is None or c.fn.params[0][1] == 'this' else c.args[1])
     out = []
-    for k, (tag, p, extra) in enumerate(c.log):
+    for k, e in enumerate(c.log):
+        if len(e) != 3:
+            continue
+        tag, p, extra = e
         if tag in DELEGATING:
             out.append(('processor-bound-to-this-zone@%s#%d' % (tag, k), extra[0] == f['zi']))
     return out
